@@ -170,7 +170,7 @@ def run(chk: Check) -> None:
                 chk.ob("R10.2", "%s:use(%s)" % (f.qualname, n.attr), allowed or read_only, f.loc(n),
                        "%s touches %s other than by a read through .get: only Module.__init__, "
                        "_index_add and _index_discard may write the symbol indexes" % (f.qualname, n.attr), 1)
-    chk.floor("R10.2", "uses of the symbol indexes", uses, 8)
+    chk.floor("R10.2", "uses of the symbol indexes", uses, 5)
     init = mod.methods["__init__"]
     for idx in INDEXES:
         per_instance = any(isinstance(n, (ast.Assign, ast.AnnAssign)) and
